@@ -197,8 +197,8 @@ type c08Subject struct {
 	Big    bool     `json:"big,omitempty"` // padded so that the cookie store splits the session over several cookies
 	n      int
 	// credentials (made in the run)
-	cookieLines map[string][]string // store -> raw Set-Cookie lines of the session as issued
-	rkey, rval  string
+	cookieLines map[string][]string // store/family -> raw Set-Cookie lines of the session as issued
+	rkey, rval  map[string]string   // family -> Redis entry of the redis-store session
 	bearer      string
 }
 
@@ -276,19 +276,13 @@ func c08Subjects(run *vfRun) []*c08Subject {
 	bases := []string{"example.com", "EXAMPLE.COM", "example.org", "example.co", "example.comx", "other.org"}
 	suffixes := []string{"", ".", ".evil.org", " ", "@example.com"}
 	total := len(locals) * len(prefixes) * len(bases) * len(suffixes)
-	want := run.Env.Pick(40, total)
+	want := run.Env.Pick(40, 300)
 	seen := map[string]bool{}
 	for _, s := range out {
 		seen[s.Email] = true
 	}
 	for tries := 0; tries < total*4 && want > 0; tries++ {
 		k := run.Rng.Intn(total)
-		if run.Env.Thorough() {
-			k = tries
-			if k >= total {
-				break
-			}
-		}
 		e := locals[k%len(locals)] + "@" + prefixes[(k/len(locals))%len(prefixes)] + bases[(k/len(locals)/len(prefixes))%len(bases)] + suffixes[(k/len(locals)/len(prefixes)/len(bases))%len(suffixes)]
 		if seen[e] {
 			continue
@@ -308,7 +302,17 @@ func c08Subjects(run *vfRun) []*c08Subject {
 type c08Inst struct {
 	Rules c08RuleSet
 	Store string
+	Fam   string // "host": host-only cookies (default) | "domain": --cookie-domain=proxy.test
 	P     *vfProxy
+}
+
+func (in *c08Inst) key() string { return in.Store + "/" + in.Fam }
+
+func c08FamFlags(fam string) []string {
+	if fam == "domain" {
+		return []string{"--cookie-domain=proxy.test"}
+	}
+	return nil
 }
 
 type c08World struct {
@@ -348,8 +352,8 @@ func (cw *c08World) withNewRedisKey(f func()) (key, val string) {
 	return
 }
 
-func (cw *c08World) flags(r c08RuleSet, store string) []string {
-	f := []string{"--session-store-type=" + store, "--skip-jwt-bearer-tokens=true"}
+func (cw *c08World) flags(r c08RuleSet, store, fam string) []string {
+	f := append([]string{"--session-store-type=" + store, "--skip-jwt-bearer-tokens=true"}, c08FamFlags(fam)...)
 	if store == "redis" {
 		f = append(f, "--redis-connection-url="+cw.w.RedisURL())
 	}
@@ -375,6 +379,24 @@ func (cw *c08World) flags(r c08RuleSet, store string) []string {
 		f = append(f, "--skip-provider-button=true")
 	}
 	return f
+}
+
+// c08Violation forwards at most three witnesses per signature to the run (the rig stops writing witnesses after 25
+// violations in total, so a flood of one class must not hide the first witness of another); everything is counted.
+var (
+	c08ViolMu   sync.Mutex
+	c08ViolSeen = map[string]int{}
+)
+
+func c08Violation(run *vfRun, sig, summary string, detail interface{}) {
+	c08ViolMu.Lock()
+	c08ViolSeen[sig]++
+	n := c08ViolSeen[sig]
+	c08ViolMu.Unlock()
+	run.Count("violations["+sig+"]", 1)
+	if n <= 3 {
+		run.Violation(sig, summary, detail)
+	}
 }
 
 // c08ASCII renders a value for the one-line summaries in pure ASCII (the check script greps its output).
@@ -413,22 +435,23 @@ func (s *c08Subject) identity() vfIdentity {
 
 // makeCreds: real logins at the permissive issuers (one per store) and a bearer token with the same claims.
 func (cw *c08World) makeCreds(s *c08Subject) error {
-	s.cookieLines = map[string][]string{}
-	for _, store := range []string{"cookie", "redis"} {
-		p := cw.issuer[store]
+	s.cookieLines, s.rkey, s.rval = map[string][]string{}, map[string]string{}, map[string]string{}
+	for _, key := range []string{"cookie/host", "redis/host", "cookie/domain", "redis/domain"} {
+		p := cw.issuer[key]
+		store, fam := strings.Split(key, "/")[0], strings.Split(key, "/")[1]
 		b := vfNewBrowser("")
 		var err error
 		if store == "redis" {
-			s.rkey, s.rval = cw.withNewRedisKey(func() { _, _, err = b.Login(p, s.identity(), "/") })
+			s.rkey[fam], s.rval[fam] = cw.withNewRedisKey(func() { _, _, err = b.Login(p, s.identity(), "/") })
 		} else {
 			_, _, err = b.Login(p, s.identity(), "/")
 		}
 		if err != nil {
-			return fmt.Errorf("login of %q at the permissive %s instance: %w", s.Email, store, err)
+			return fmt.Errorf("login of %q at the permissive %s instance: %w", s.Email, key, err)
 		}
-		s.cookieLines[store] = c08SessionLines(b)
-		if len(s.cookieLines[store]) == 0 || (store == "redis" && s.rkey == "") {
-			return fmt.Errorf("login of %q at the permissive %s instance left no session", s.Email, store)
+		s.cookieLines[key] = c08SessionLines(b)
+		if len(s.cookieLines[key]) == 0 || (store == "redis" && s.rkey[fam] == "") {
+			return fmt.Errorf("login of %q at the permissive %s instance left no session", s.Email, key)
 		}
 	}
 	now := time.Now()
@@ -485,7 +508,7 @@ func (cw *c08World) probe(in *c08Inst, history, source string, subject interface
 	what := fmt.Sprintf("%s session of %s at rule set %q (%s store, %s): GET %s -> %d", source, c08ASCII(subject), in.Rules.Name, in.Store, history, target, resp.Code)
 	run.Eval(cell)
 	if resp.Panic != "" {
-		run.Violation("c08:panic", "request handling panicked: "+what+": "+vfTrunc(resp.Panic, 200), wit())
+		c08Violation(run, "c08:panic", "request handling panicked: "+what+": "+vfTrunc(resp.Panic, 200), wit())
 		return false
 	}
 	switch {
@@ -507,23 +530,23 @@ func (cw *c08World) probe(in *c08Inst, history, source string, subject interface
 		return served
 	}
 	if served {
-		run.Violation("c08:served-though-rules-fail", "served although the reference rule evaluation refuses the session: "+what, wit())
+		c08Violation(run, "c08:served-though-rules-fail", "served although the reference rule evaluation refuses the session: "+what, wit())
 		return served
 	}
 	run.Count("refused_disallowed", 1)
 	if resp.Code != 401 && resp.Code != 403 {
-		run.Violation("c08:refusal-status", "a session failing the rules must be refused with 401/403: "+what, wit())
+		c08Violation(run, "c08:refusal-status", "a session failing the rules must be refused with 401/403: "+what, wit())
 		return served
 	}
 	if len(left) > 0 {
-		run.Violation("c08:refused-without-clearing-cookie", fmt.Sprintf("refused, but the browser still holds session cookie(s) %v afterwards: %s", left, what), wit())
+		c08Violation(run, "c08:refused-without-clearing-cookie", fmt.Sprintf("refused, but the browser still holds session cookie(s) %v afterwards: %s", left, what), wit())
 		return served
 	}
 	if len(lines) > 0 {
 		run.Count("refusals_with_cookie_deletion_checked", 1)
 	}
 	if c08IssuesSession(resp.SetCookies()) {
-		run.Violation("c08:refused-without-clearing-cookie", "refused, but a new session cookie was handed out: "+what, wit())
+		c08Violation(run, "c08:refused-without-clearing-cookie", "refused, but a new session cookie was handed out: "+what, wit())
 	}
 	run.SampleEvery(4001, func() interface{} { return wit() })
 	return served
@@ -542,8 +565,10 @@ func (cw *c08World) note(kind, what string) {
 }
 
 func (cw *c08World) restore(s *c08Subject) {
-	if s.rkey != "" && !cw.w.Redis().Exists(s.rkey) {
-		_ = cw.w.Redis().Set(s.rkey, s.rval)
+	for fam, k := range s.rkey {
+		if k != "" && !cw.w.Redis().Exists(k) {
+			_ = cw.w.Redis().Set(k, s.rval[fam])
+		}
 	}
 }
 
@@ -559,7 +584,7 @@ func c08Global(cw *c08World, subjects []*c08Subject) {
 			return
 		}
 		run.Count("subjects", 1)
-		if n := len(s.cookieLines["cookie"]); n > 1 {
+		if n := len(s.cookieLines["cookie/host"]); n > 1 {
 			run.Count("sessions_split_over_several_cookies", 1)
 			run.Count("cookies_of_split_sessions", int64(n))
 		}
@@ -578,10 +603,10 @@ func c08Global(cw *c08World, subjects []*c08Subject) {
 				}
 				for t, target := range c08Targets {
 					id := fmt.Sprintf("c08g-%d-%d-%s-%d", s.n, k, src, t)
-					cell := fmt.Sprintf("%s|%s|%s|%s|%s|restart|want=%v", in.Rules.Name, s.Class, src, target, in.Store, ok)
+					cell := fmt.Sprintf("%s|%s|%s|%s|%s|restart|want=%v", in.Rules.Name, s.Class, src, target, in.key(), ok)
 					if src == "cookie" {
 						cw.restore(s)
-						cw.probe(in, "session issued by a permissive instance sharing secret and store, presented after an operator restart with these rules", src, s, s.cookieLines[in.Store], "", target, ok, cell, id)
+						cw.probe(in, "session issued by a permissive instance sharing secret and store, presented after an operator restart with these rules", src, s, s.cookieLines[in.key()], "", target, ok, cell, id)
 					} else {
 						cw.probe(in, "bearer token", src, s, nil, "Bearer "+s.bearer, target, ok, cell, id)
 					}
@@ -601,6 +626,7 @@ func c08Htpasswd(cw *c08World) {
 		store      string
 	}
 	var forms []form
+	_ = forms
 	for _, in := range cw.insts {
 		if !in.Rules.Ht {
 			continue
@@ -617,7 +643,7 @@ func c08Htpasswd(cw *c08World) {
 		k, v := cw.withNewRedisKey(func() {
 			r = b.Send(in.P, vfNewReq("POST", "/oauth2/sign_in").WithBody("application/x-www-form-urlencoded", []byte("username=bob&password=pw1&rd=%2F")))
 		})
-		f := form{lines: c08SessionLines(b), groups: in.Rules.HtGroups, store: in.Store}
+		f := form{lines: c08SessionLines(b), groups: in.Rules.HtGroups, store: in.key()}
 		if in.Store == "redis" {
 			f.rkey, f.rval = k, v
 		}
@@ -629,7 +655,7 @@ func c08Htpasswd(cw *c08World) {
 	}
 	for fi, f := range forms {
 		for k, in := range cw.insts {
-			if in.Store != f.store {
+			if in.key() != f.store {
 				continue
 			}
 			ok, _ := in.Rules.allowed("", f.groups)
@@ -656,7 +682,7 @@ func c08Logins(cw *c08World, subjects []*c08Subject) {
 	var par, ser []job
 	for k, in := range cw.insts {
 		for i, s := range subjects {
-			if s.Class == "grammar" && !run.Env.Thorough() {
+			if s.Class == "grammar" && (!run.Env.Thorough() || (i+k)%6 != 0) {
 				continue
 			}
 			if !run.Env.Thorough() && (i+k/2)%2 == 1 {
@@ -715,20 +741,20 @@ func c08Logins(cw *c08World, subjects []*c08Subject) {
 		what := fmt.Sprintf("login of %s at rule set %q (%s store): callback status %d", c08ASCII(j.s), j.in.Rules.Name, j.in.Store, cb.Code)
 		switch {
 		case cb.Panic != "":
-			run.Violation("c08:panic", "callback panicked: "+what, wit)
+			c08Violation(run, "c08:panic", "callback panicked: "+what, wit)
 		case len(left) > 0 || c08IssuesSession(cb.SetCookies()):
-			run.Violation("c08:session-for-refused-login", "an identity failing the rules was given a session cookie: "+what, wit)
+			c08Violation(run, "c08:session-for-refused-login", "an identity failing the rules was given a session cookie: "+what, wit)
 		case len(newKeys) > 0:
-			run.Violation("c08:session-for-refused-login", "an identity failing the rules left a session in Redis: "+what, wit)
+			c08Violation(run, "c08:session-for-refused-login", "an identity failing the rules left a session in Redis: "+what, wit)
 		case cb.Code < 400:
-			run.Violation("c08:session-for-refused-login", "an identity failing the rules did not get an error page: "+what, wit)
+			c08Violation(run, "c08:session-for-refused-login", "an identity failing the rules did not get an error page: "+what, wit)
 		default:
 			// whatever the browser now holds must not open the door
 			id := fmt.Sprintf("c08l-%s-%s-%d", j.in.Rules.Name, j.in.Store, j.s.n)
 			r := b.Get(j.in.P, "/x", "X-Vf-Id", id)
 			if len(cw.w.Up.FindHit(id)) > 0 {
 				wit["followup_status"] = r.Code
-				run.Violation("c08:session-for-refused-login", "after the refused login the browser was served: "+what, wit)
+				c08Violation(run, "c08:session-for-refused-login", "after the refused login the browser was served: "+what, wit)
 			}
 		}
 	}
@@ -946,13 +972,13 @@ func c08AuthOnly(cw *c08World) {
 		what := fmt.Sprintf("session {%s %+q %+q} GET %s at the %s instance -> %d", j.s.Label, j.s.Email, j.s.Groups, target, j.iname, resp.Code)
 		switch {
 		case resp.Panic != "":
-			run.Violation("c08:panic", "auth-only panicked: "+what, wit)
+			c08Violation(run, "c08:panic", "auth-only panicked: "+what, wit)
 		case resp.Code == 202 && !allowed:
-			run.Violation("c08:auth-only-constraint-not-enforced", "202 although a given constraint is not satisfied: "+what, wit)
+			c08Violation(run, "c08:auth-only-constraint-not-enforced", "202 although a given constraint is not satisfied: "+what, wit)
 		case resp.Code == 202:
 			run.Count("authonly_202", 1)
 		case resp.Code != 401 && resp.Code != 403:
-			run.Violation("c08:refusal-status", "auth-only must answer 202, 401 or 403: "+what, wit)
+			c08Violation(run, "c08:refusal-status", "auth-only must answer 202, 401 or 403: "+what, wit)
 		case allowed:
 			run.Count("authonly_allowed_by_permissive_reading_but_refused(not judged)", 1)
 			cw.note("authonly_allowed_by_permissive_reading_but_refused", what)
@@ -982,7 +1008,7 @@ func c08Reload(cw *c08World) {
 		if err != nil {
 			run.T.Fatalf("c08: reload instance: %v", err)
 		}
-		in := &c08Inst{Store: store, P: p}
+		in := &c08Inst{Store: store, Fam: "host", P: p}
 		subs := make([]*c08Subject, len(pool))
 		for i, e := range pool {
 			subs[i] = &c08Subject{Email: e, Groups: []string{"g1"}, Class: "reload", n: 9000 + i}
@@ -1045,7 +1071,7 @@ func c08Reload(cw *c08World) {
 						cell := fmt.Sprintf("reload|%s|%s|%s|%s|want=%v", how, src, target, store, ok)
 						if src == "cookie" {
 							cw.restore(s)
-							cw.probe(in, "session issued earlier; e-mails file then rewritten ("+how+") and reloaded", src, s, s.cookieLines[store], "", target, ok, cell, id)
+							cw.probe(in, "session issued earlier; e-mails file then rewritten ("+how+") and reloaded", src, s, s.cookieLines[in.key()], "", target, ok, cell, id)
 						} else {
 							cw.probe(in, "bearer token; e-mails file rewritten ("+how+") and reloaded", src, s, nil, "Bearer "+s.bearer, target, ok, cell, id)
 						}
@@ -1069,16 +1095,18 @@ func TestVerif_C08(t *testing.T) {
 	defer w.Close()
 	cw := &c08World{run: run, w: w, issuer: map[string]*vfProxy{}}
 	cw.ht = w.File("c08-htpasswd", "bob:"+c01SHA("pw1")+"\n")
-	for _, store := range []string{"cookie", "redis"} {
-		cw.issuer[store] = w.MustProxy("--session-store-type="+store, "--redis-connection-url="+w.RedisURL())
+	for _, key := range []string{"cookie/host", "redis/host", "cookie/domain", "redis/domain"} {
+		store, fam := strings.Split(key, "/")[0], strings.Split(key, "/")[1]
+		cw.issuer[key] = w.MustProxy(append([]string{"--session-store-type=" + store, "--redis-connection-url=" + w.RedisURL()}, c08FamFlags(fam)...)...)
 	}
-	for _, r := range c08RuleSets() {
+	for ri, r := range c08RuleSets() {
+		fam := []string{"host", "domain"}[ri%2]
 		for _, store := range []string{"cookie", "redis"} {
-			p, err := w.NewProxy(cw.flags(r, store)...)
+			p, err := w.NewProxy(cw.flags(r, store, fam)...)
 			if err != nil {
 				t.Fatalf("c08: rule set %s/%s: %v", r.Name, store, err)
 			}
-			cw.insts = append(cw.insts, &c08Inst{Rules: r, Store: store, P: p})
+			cw.insts = append(cw.insts, &c08Inst{Rules: r, Store: store, Fam: fam, P: p})
 		}
 	}
 	run.Count("ms_building_instances", time.Since(run.start).Milliseconds())
@@ -1113,5 +1141,5 @@ func TestVerif_C08(t *testing.T) {
 			t.Fail()
 		}
 	}
-	run.Finish(int64(run.Env.Pick(10000, 50000)), run.Env.Pick(1500, 3000))
+	run.Finish(int64(run.Env.Pick(12000, 50000)), run.Env.Pick(6000, 12000))
 }
